@@ -20,6 +20,10 @@ pub open spec fn is_staging(p: PathV) -> bool { ends_with(p, TMP()) }
 // that has no `..`, root or prefix component. `rel_ok` is the (assumed) std::path component grammar, validated by the twin.
 pub uninterp spec fn rel_ok(x: PathV) -> bool;
 pub uninterp spec fn no_slash(s: PathV) -> bool;
+// THE commit lock file. flock is held on an inode: mutual exclusion across server processes needs every process to lock
+// the SAME inode, so the name <root>/.copia/commit.lock must stay bound to it - it is never unlinked, renamed or replaced
+pub open spec fn lockdir_of(root: PathV) -> PathV { joinv(root, strv(".copia"@)) }
+pub open spec fn lockfile(root: PathV) -> PathV { joinv(lockdir_of(root), strv("commit.lock"@)) }
 pub open spec fn inside(root: PathV, p: PathV) -> bool { p == root || exists|x: PathV| p == #[trigger] joinv(root, x) && rel_ok(x) }
 // the parent directory of a path inside the root (other than the root itself) is inside the root
 pub broadcast axiom fn ax_parent_inside(root: PathV, q: PathV, p: PathV)
@@ -47,6 +51,7 @@ pub fn vfs_create_dir_all<P: AsRef<Path>>(p: P, Tracked(w): Tracked<&mut World>)
 pub fn vfs_rename<P: AsRef<Path>, Q: AsRef<Path>>(from: P, to: Q, Tracked(w): Tracked<&mut World>) -> (r: std::io::Result<()>)
     requires
         inside(old(w).root, asp(from)), inside(old(w).root, asp(to)),                         // C11
+        asp(from) != lockfile(old(w).root), asp(to) != lockfile(old(w).root),                 // C03: the lock file keeps its inode
         !is_staging(asp(to)) ==> old(w).lock,                                               // C03: live paths change only under the commit lock
         // C10: what is published is a process-private staging file, flushed, whose bytes were checked against the declared hash
         old(w).files.contains_key(asp(from)) ==> old(w).private.contains(asp(from)) && old(w).files[asp(from)].synced
@@ -63,6 +68,7 @@ pub fn vfs_rename<P: AsRef<Path>, Q: AsRef<Path>>(from: P, to: Q, Tracked(w): Tr
 pub fn vfs_remove_file<P: AsRef<Path>>(p: P, Tracked(w): Tracked<&mut World>) -> (r: std::io::Result<()>)
     requires
         inside(old(w).root, asp(p)),                                                          // C11
+        asp(p) != lockfile(old(w).root),                                                     // C03: the lock file keeps its inode
         !is_staging(asp(p)) ==> old(w).lock,                                                 // C03: live paths only under the lock
         is_staging(asp(p)) ==> old(w).private.contains(asp(p)),                              // C10: never another writer's staging file
     ensures
@@ -76,7 +82,7 @@ pub fn vfs_remove_file<P: AsRef<Path>>(p: P, Tracked(w): Tracked<&mut World>) ->
 #[verifier::external_body] pub struct LockFile { _p: () }
 #[verifier::external_body]
 pub fn vfs_open_lock<P: AsRef<Path>>(p: P, Tracked(w): Tracked<&mut World>) -> (r: std::io::Result<LockFile>)
-    requires inside(old(w).root, asp(p)),
+    requires inside(old(w).root, asp(p)), asp(p) == lockfile(old(w).root),        // every process locks the one lock file
     ensures *final(w) == *old(w),
 { unimplemented!() }
 #[verifier::external_body]
